@@ -23,6 +23,7 @@ CHECKS = {
     "C10": {"parts": [FLOW]},
     "C11": {"parts": [FLOW]},
     "C13": {"parts": [FLOW]},
+    "C16": {"parts": [FLOW]},
     "C09": {"rule": "conditional processor: inputs<=4 x all match patterns x output length 0..kept+1 x kind vectors x slice capacity; sandbox: plugin behaviours x context states; reply shapes of processors, destinations and sources explored as answers of the scripted plugins on the real full stack",
             "parts": [{"name": "condmerge", "pkg": "pkg/verifc09", "harness": "c09cond", "run": "^TestVerifC09Cond$"},
                       {"name": "sandbox", "pkg": "pkg/plugin/connector/builtin", "harness": "c09sandbox", "run": "^TestVerifC09Sandbox$", "instrument": True},
